@@ -39,9 +39,19 @@ func init() {
 	for _, a := range []string{"$", "*", "^", "~", "|"} {
 		badPairs[[2]string{a, "="}] = true
 	}
+	for _, a := range []string{"#", "-", "number", "@"} {
+		badPairs[[2]string{a, "-->"}] = true
+	}
+	badPairs[[2]string{"number", "%"}] = true
+	badPairs[[2]string{"#", "-"}] = true
+	badPairs[[2]string{"-", "-"}] = true
 	badPairs[[2]string{"ident", "() block"}] = true
 	badPairs[[2]string{"|", "|"}] = true
 	badPairs[[2]string{"/", "*"}] = true
+	badPairs[[2]string{"/", "*="}] = true
+	badPairs[[2]string{"|", "|="}] = true
+	badPairs[[2]string{"|", "||"}] = true
+	badPairs[[2]string{"<", "!"}] = true
 }
 
 func Serialize(l []Token) string {
@@ -323,13 +333,16 @@ func (t FunctionBlock) serializeTo(writer io.StringWriter) {
 // writing chunks as Unicode string
 // by calling the provided `write` callback.
 func serializeTo(nodes []Token, writer io.StringWriter) {
-	var previousType string
+	var (
+		previousType string
+		previous     Token
+	)
 	for _, node := range nodes {
 		serializationType := node.Kind().String()
 		if literal, ok := node.(Literal); ok {
 			serializationType = literal.Value
 		}
-		if badPairs[[2]string{previousType, serializationType}] {
+		if badPairs[[2]string{previousType, serializationType}] || identFusesWith(previous, node) {
 			writer.WriteString("/**/")
 		} else if previousType == "\\" {
 			whitespace, ok := node.(Whitespace)
@@ -340,7 +353,25 @@ func serializeTo(nodes []Token, writer io.StringWriter) {
 		}
 		node.serializeTo(writer)
 		previousType = serializationType
+		previous = node
 	}
+}
+
+// identFusesWith handles the pairs of the serialization table which depend on the
+// value of the identifier: "--" followed by ">" would read as "-->",
+// and "u" or "U" followed by "+" would start an unicode-range.
+func identFusesWith(previous, node Token) bool {
+	ident, ok := previous.(Ident)
+	if !ok {
+		return false
+	}
+	switch {
+	case IsLiteral(node, ">"):
+		return ident.Value == "--"
+	case IsLiteral(node, "+"):
+		return ident.Value == "u" || ident.Value == "U"
+	}
+	return false
 }
 
 func (t QualifiedRule) serializeTo(writer io.StringWriter) {
